@@ -194,8 +194,14 @@ def r11c(ctx, run):
         return
     em = emits[0]
     disc = fn.chain_operand(em.args[2], depth=12)
-    load_ok = disc.get("kind") == "call" and short(disc["callee"]) == "load" and disc["args"][1].get("kind") == "const" and disc["args"][1]["path"].endswith("types::I8") \
-        and FA.chain_has_call(disc["args"][4], "discriminant_offset")
+    # the tag is an unsigned byte: load(I8) (Switch zero-extends its index) or the zero-extending uload8; looking
+    # through an explicit uextend.  sload8/sextend sign-extend: tags >= 128 would miss every table entry.
+    while disc.get("kind") == "call" and short(disc["callee"]) == "uextend" and len(disc["args"]) >= 3:
+        disc = disc["args"][2]
+    is_call = disc.get("kind") == "call" and len(disc.get("args", [])) >= 5
+    load_ok = is_call and FA.chain_has_call(disc["args"][4], "discriminant_offset") and (
+        (short(disc["callee"]) == "load" and disc["args"][1].get("kind") == "const" and disc["args"][1]["path"].endswith("types::I8"))
+        or short(disc["callee"]) == "uload8")
     run.check(load_ok, em.site(), "dispatch value = load(I8, scrutinee, discriminant_offset)", FC, "tag-load", em.file, em.ln,
               "the value dispatched on must be the one-byte tag at discriminant_offset of the scrutinee; found %s" % show_chain(disc, 4)[:100])
     if load_ok:
